@@ -216,6 +216,13 @@ Q_SHAPES = {
     # a straight side written as a quadratic / cubic segment (degree-elevated line) between arcs
     "elev": ("ctrl", [[(0.0, 0.0), (1.0, 0.0), (2.0, 1.0)], [(2.0, 1.0), (2.0, 3.0), (0.0, 2.0)], [(0.0, 2.0), (-1.0, 1.0), (-1.0, 0.0)], [(-1.0, 0.0), (-0.5, 0.0), (0.0, 0.0)]]),
     "elev3": ("ctrl", [[(0.0, 0.0), (1.0, 0.0), (2.0, 0.0), (3.0, 0.0)], [(3.0, 0.0), (4.0, 1.0), (4.0, 2.0), (3.0, 3.0)], [(3.0, 3.0), (2.0, 3.0), (1.0, 3.0), (0.0, 3.0)], [(0.0, 3.0), (-1.0, 2.0), (-1.0, 1.0), (0.0, 0.0)]]),
+    # boundaries that share control points (and whole sides) but group them into segments of
+    # different degrees: a square, the same with one corner rounded, with a cubic over two corners
+    # (float data: exact Newton iterations on integer curved data take tens of minutes)
+    "cpsq": ("verts", [(0.0, 0.0), (2.0, 0.0), (2.0, 2.0), (0.0, 2.0)]),
+    "cprs": ("ctrl", [[(0.0, 0.0), (2.0, 0.0), (2.0, 2.0)], [(2.0, 2.0), (0.0, 2.0)], [(0.0, 2.0), (0.0, 0.0)]]),
+    "cpcub": ("ctrl", [[(0.0, 0.0), (2.0, 0.0), (2.0, 2.0), (0.0, 2.0)], [(0.0, 2.0), (0.0, 0.0)]]),
+    "cplens": ("ctrl", [[(0.0, 0.0), (2.0, 0.0), (2.0, 2.0)], [(2.0, 2.0), (0.0, 2.0), (0.0, 0.0)]]),
     # mixed degrees in generic position (nothing on an axis, nothing symmetric about the origin)
     "mixg": (
         "ctrl",
